@@ -274,6 +274,9 @@ structure Cfg where
   factor : Nat
   /-- MATCH runs on `String::from_utf8_lossy` text (true) or on the bytes (false) -/
   lossy : Bool
+  /-- the cursor is a slot (`scan_slot` of the next element, in the order of (slot, name)): true;
+      or a rank in the list sorted by name, rebuilt on every call: false -/
+  slotCursor : Bool
   deriving Repr, DecidableEq
 
 def Cfg.ok (g : Cfg) : Prop := 1 ≤ g.dflt ∧ 1 ≤ g.cap ∧ 1 ≤ g.factor
@@ -303,7 +306,58 @@ def scanSorted (g : Cfg) (m : Bytes → Bool) (ks : List Bytes) (cursor count : 
     let r := scanLoop g m (normCount g count) (ks.drop cursor) 0 0
     (if ks.length ≤ cursor + r.2 then 0 else cursor + r.2, r.1)
 
+/-! ### The slot cursor: a position that other elements cannot shift
+
+  The elements are ordered by (slot, name), `slot` being a fixed hash of the name; the cursor is
+  the slot at which the next call resumes (0 = from the beginning; a returned 0 = done).  A page
+  never ends between two elements of the same slot.  Everything below is parametric in the hash
+  `h`; the engine uses `scanSlot`. -/
+
+/-- The loop with the condition `(examined < max*10 && matched < max) || same_slot_as_previous(..)`;
+    `prev` is the slot of the element before the current one inside this page (`none` at the
+    start of the page: `pos > start` is false). -/
+def scanLoopS (g : Cfg) (h : Bytes → Nat) (m : Bytes → Bool) (mx : Nat) :
+    List Bytes → Option Nat → Nat → Nat → List Bytes × Nat
+  | [], _, _, _ => ([], 0)
+  | k :: rest, prev, ex, got =>
+    if (ex < mx * g.factor ∧ got < mx) ∨ prev = some (h k) then
+      let r := scanLoopS g h m mx rest (some (h k)) (ex + 1) (if m k then got + 1 else got)
+      (if m k then k :: r.1 else r.1, r.2 + 1)
+    else ([], 0)
+
+/-- One call over `ks`, the candidates sorted by (slot, name):
+    `start_pos = partition_point(slot < cursor)`, the loop, `next = slot of the first unexamined`. -/
+def scanSlots (g : Cfg) (h : Bytes → Nat) (m : Bytes → Bool) (ks : List Bytes) (cursor count : Nat) :
+    Nat × List Bytes :=
+  let cand := ks.dropWhile (fun k => h k < cursor)
+  if cand = [] ∧ ks ≠ [] then (0, [])
+  else
+    let r := scanLoopS g h m (normCount g count) cand none 0 0
+    (match cand.drop r.2 with
+      | [] => 0
+      | k :: _ => h k, r.1)
+
 end Code
+
+/-- FNV-1a 64 (bytes < 256), as `scan_slot` and `get_shard_index` compute it with `wrapping_mul`. -/
+def fnv1a (bs : Bytes) : Nat :=
+  bs.foldl (fun hh b => ((hh ^^^ b) * 1099511628211) % 18446744073709551616) 14695981039346656037
+
+/-- `scan_slot`: the hash cut to 53 bits (`>> 11`). -/
+def scanSlot (bs : Bytes) : Nat := fnv1a bs / 2048
+
+def insertBy (le : Bytes → Bytes → Bool) (x : Bytes) : List Bytes → List Bytes
+  | [] => [x]
+  | y :: l => if le x y then x :: y :: l else y :: insertBy le x l
+
+def sortBy (le : Bytes → Bytes → Bool) : List Bytes → List Bytes
+  | [] => []
+  | x :: l => insertBy le x (sortBy le l)
+
+/-- Order of (slot, name): what `sort()` followed by the stable `sort_by_cached_key(scan_slot)` yields. -/
+def slotLe (h : Bytes → Nat) (a b : Bytes) : Bool := h a < h b || (h a == h b && bytesLe a b)
+
+def sortSlot (h : Bytes → Nat) (l : List Bytes) : List Bytes := sortBy (slotLe h) l
 
 /-! ## The key space -/
 
@@ -331,16 +385,26 @@ def typeOk (ty : Option Bytes) (t : Nat) : Bool :=
 def view (ty : Option Bytes) (db : Db) : List Bytes :=
   sortKeys ((db.filter fun kv => typeOk ty kv.2).map (·.1))
 
+/-- The list the slot cursor walks: keys of the requested type in the order of (slot, name). -/
+def viewSlot (ty : Option Bytes) (db : Db) : List Bytes :=
+  sortSlot scanSlot ((db.filter fun kv => typeOk ty kv.2).map (·.1))
+
 namespace Code
 
-/-- `StorageEngine::scan(db, cursor, pattern, type_filter, count)`. -/
+/-- `StorageEngine::scan(db, cursor, pattern, type_filter, count)`: the rank walk over the view
+    sorted by name, or the slot walk over the view sorted by (slot, name). -/
 def scan (g : Cfg) (db : Db) (cursor count : Nat) (pat ty : Option Bytes) : Nat × List Bytes :=
-  scanSorted g (matchOpt g.lossy pat) (view ty db) cursor count
+  if g.slotCursor then scanSlots g scanSlot (matchOpt g.lossy pat) (viewSlot ty db) cursor count
+  else scanSorted g (matchOpt g.lossy pat) (view ty db) cursor count
 
-/-- `sscan`: fast path (whole set, hash order — modelled sorted) or the sorted cursor walk. -/
+/-- `sscan`: fast path (whole set, hash-table order — modelled in iteration order) or the cursor walk. -/
 def sscan (g : Cfg) (members : List Bytes) (cursor count : Nat) (pat : Option Bytes) : Nat × List Bytes :=
-  if members.length ≤ normCount g count ∧ cursor = 0 ∧ pat = none then (0, sortKeys members)
-  else scanSorted g (matchOpt g.lossy pat) (sortKeys members) cursor count
+  if g.slotCursor then
+    (if members.length ≤ normCount g count ∧ cursor = 0 ∧ pat = none then (0, sortSlot scanSlot members)
+     else scanSlots g scanSlot (matchOpt g.lossy pat) (sortSlot scanSlot members) cursor count)
+  else
+    (if members.length ≤ normCount g count ∧ cursor = 0 ∧ pat = none then (0, sortKeys members)
+     else scanSorted g (matchOpt g.lossy pat) (sortKeys members) cursor count)
 
 def fastPath (g : Cfg) (n cursor count : Nat) (pat : Option Bytes) : Bool :=
   n ≤ normCount g count ∧ cursor = 0 ∧ pat = none
@@ -404,6 +468,26 @@ def onlyAdditions : List (List Bytes) → Bool
   | [] => true
   | [_] => true
   | ks :: ks' :: rest => ks.all (fun k => ks'.contains k) && onlyAdditions (ks' :: rest)
+
+/-! ### A full iteration with the slot cursor (same conventions as `iter`) -/
+
+def iterS (g : Cfg) (h : Bytes → Nat) (m : Bytes → Bool) (count : Nat) : Nat → List (List Bytes) → List (List Bytes)
+  | _, [] => []
+  | c, ks :: rest =>
+    let r := scanSlots g h m ks c count
+    r.2 :: (if r.1 = 0 then [] else iterS g h m count r.1 rest)
+
+def iterSFinishes (g : Cfg) (h : Bytes → Nat) (m : Bytes → Bool) (count : Nat) : Nat → List (List Bytes) → Bool
+  | _, [] => false
+  | c, ks :: rest =>
+    let c' := (scanSlots g h m ks c count).1
+    if c' = 0 then rest.isEmpty else iterSFinishes g h m count c' rest
+
+def iterSCalls (g : Cfg) (h : Bytes → Nat) (m : Bytes → Bool) (count : Nat) : Nat → List (List Bytes) → Option Nat
+  | _, [] => none
+  | c, ks :: rest =>
+    let c' := (scanSlots g h m ks c count).1
+    if c' = 0 then some 1 else (iterSCalls g h m count c' rest).map (· + 1)
 
 end Code
 
